@@ -167,6 +167,7 @@ def _bind(chk, tier, seed, wd, db, rng, dec, dec2, off, late):
     plain = [d for d in defs if not any(f["pk"] for f in d["fields"])]
     chosen = keyed + plain[:: (1 if tier == "thorough" else 3 if tier != "selftest" else 12)]
     chosen.sort(key=lambda d: d["idx"])          # database order: siblings of one PGN follow each other
+    by_id_single = {d["id"]: d for d in chosen if d["fast"] == "single" and 0 < d["len"] <= 8}
     for d in chosen:
         obs = []
         obs_tagged, obs_tags = [], []
@@ -214,6 +215,36 @@ def _bind(chk, tier, seed, wd, db, rng, dec, dec2, off, late):
     for (g, payload), res in zip(line_ref, json.loads(p.stdout)):
         if res is not None and g < len(groups) and res[0] == groups[g]["id"]:
             groups[g]["obs"].append({"p": list(payload), "hash": res[1], "id": res[0], "netmap": True})
+    # the same payloads as the four gateway clients deliver them (built with network mapping on, and off): every source claims
+    # first, the source address tells which payload a delivered message came from
+    from .. import clientrun as cr
+    small = [(gi, g) for gi, g in enumerate(groups) if meta[gi] in by_id_single and any(f["pk"] for f in by_id_single[meta[gi]]["fields"])]
+    small = small[:: max(1, len(small) // (24 if tier != "selftest" else 4))]
+    n_client = 0
+    for kind in cr.vloop.CLIENTS:
+        items, back = [], {}
+        for gi, g in small:
+            d = by_id_single[meta[gi]]
+            seen = set()
+            for o in g["obs"]:
+                pl = bytes(o["p"])
+                if pl in seen or len(back) >= 240:
+                    continue
+                seen.add(pl)
+                src = len(back) + 1
+                back[src] = (gi, pl)
+                items += [("raw", 60928, src, 255, 6, bytes.fromhex("e903e0e7008232c0")), ("raw", d["pgn"], src, 255, 3, pl)]
+        for netmap in (True, False):
+            packets = cr.wire_packets(kind, items, rng, with_bad=False)
+            for m in cr.deliveries(kind, packets, {"build_network_map": netmap}):
+                if m.PGN == 60928 or m.source not in back:
+                    continue
+                gi, pl = back[m.source]
+                if m.id == groups[gi]["id"]:
+                    groups[gi]["obs"].append({"p": list(pl), "hash": m.hash or "", "id": m.id, "netmap": netmap})
+                    n_client += 1
+    chk.gate(tier == "selftest" or n_client >= 200, f"only {n_client} observations through gateway clients")
+    chk.add(observations_through_clients=n_client)
     bad = validate("C17", groups, wd, shards=8)
     for i, vs in bad:
         for v in vs:
